@@ -337,7 +337,7 @@ func runC19(r *core.Run) {
 	if !r.Quick() {
 		tools = append(tools, "go1.26.8")
 	}
-	np := r.N(40, 300)
+	np := r.N(100, 400)
 	mism := []string{"delete", "truncate", "shift", "arity", "syntax", "directory", "symlink", "empty", "other-package", "arity-int", "arity-less", "mutated-trace", "mutated-trace", "arity-int", "older-short", "older-exact", "older-long", "older-short", "older-exact"}
 	nm := r.N(76, 1200)
 	type job struct{ c c19Case }
